@@ -70,43 +70,41 @@ package pcs
 //@   at Unmarshal: requires[fresh-decode-target] pristine(arg1)
 //@   ensures[ok] err == nil ==> r != nil && len(r.CPUSvnComponents) == 16
 
-// An octet-string element (PPID, PCE-ID, FMSPC) as encoding/asn1 decodes it:
-// a pkix.Extension whose Value holds the bytes directly (the usual encoding) or
-// a nested OCTET STRING.  octStr(encoding, size) names the hex string that
-// extraction has to return for it; its definition is the `assumes` clause below
-// (a definition of a spec function, not an assumption about the code).
-//@ define octExt(e) = asn1decode("pkix.Extension", seq(e.FullBytes))
-//@ define octHex(e, size) = ite(len(octExt(e).Value) == size, hexenc(seq(octExt(e).Value)), hexenc(seq(asn1decode("[]byte", seq(octExt(e).Value)))))
-//@ uf octStr(ByteSeq, BV64) Str
+// An octet-string element (PPID, PCE-ID, FMSPC) as encoding/asn1 decodes its
+// encoding b: a pkix.Extension whose Value holds the bytes directly (the usual
+// encoding) or a nested OCTET STRING.  octHex(b, size) is the hex string that
+// extraction has to return for it.
+//@ define octExt(b) = asn1decode("pkix.Extension", b)
+//@ define octHex(b, size) = ite(len(octExt(b).Value) == size, hexenc(seq(octExt(b).Value)), hexenc(seq(asn1decode("[]byte", seq(octExt(b).Value)))))
 
 //@ func extractAsn1OctetStringExtension(name, extension, size) (r, err)
 //@   at Unmarshal: requires[fresh-decode-target] pristine(arg1)
-//@   assumes[octet-string-definition] octStr(seq(extension.FullBytes), size) == octHex(extension, size)
-//@   ensures[value] err == nil ==> r == octStr(seq(extension.FullBytes), size)
+//@   ensures[value] err == nil ==> r == octHex(seq(extension.FullBytes), size)
+//@   ensures[size] err == nil && size >= 0 ==> len(r) == 2 * size
 
 // The elements of the SGX extension sequence as encoding/asn1 decodes them.
-// Each of PPID, PCE-ID and FMSPC is taken from an element carrying its OID,
-// wherever that element stands in the sequence (with distinct OIDs, as in every
-// certificate: from the one element with that OID), and no element is skipped:
-// if a TCB element is present its sixteen components were extracted.
+// No element is skipped, wherever it stands in the sequence: if an element with
+// the OID of PPID / PCE-ID / FMSPC / TCB is present, the corresponding field was
+// extracted from an element of the right kind - it has the size of that kind
+// (hex strings of 16, 2 and 6 bytes; sixteen components), which the zero value
+// a skipped element leaves behind has not, nor has the value of another kind.
+// (Which bytes an octet-string element yields is the [value] clause of
+// extractAsn1OctetStringExtension.)
 //@ define sgxElem(exts, k) = asn1decode("pkix.AttributeTypeAndValue", seq(exts[k].FullBytes))
 //@ define sgxIs(exts, k, oid) = oidEq(seq(sgxElem(exts, k).Type), seq(oid))
-//@ define ppidFrom(exts, k, n, p) = exists k2 :: k <= k2 && k2 < n && sgxIs(exts, k2, OidPPID) && p.PPID == octStr(seq(exts[k2].FullBytes), 16)
-//@ define pceidFrom(exts, k, n, p) = exists k2 :: k <= k2 && k2 < n && sgxIs(exts, k2, OidPCEID) && p.PCEID == octStr(seq(exts[k2].FullBytes), 2)
-//@ define fmspcFrom(exts, k, n, p) = exists k2 :: k <= k2 && k2 < n && sgxIs(exts, k2, OidFMSPC) && p.FMSPC == octStr(seq(exts[k2].FullBytes), 6)
 
 //@ func extractSgxExtensions(extensions) (r, err)
 //@   fresh r
 //@   at Unmarshal: requires[fresh-decode-target] pristine(arg1)
 //@   ensures[ok] err == nil ==> r != nil && len(extensions) >= 4
-//@   ensures[ppid] err == nil ==> (forall k :: 0 <= k && k < len(extensions) && sgxIs(extensions, k, OidPPID) ==> ppidFrom(extensions, k, len(extensions), r))
-//@   ensures[pceid] err == nil ==> (forall k :: 0 <= k && k < len(extensions) && sgxIs(extensions, k, OidPCEID) ==> pceidFrom(extensions, k, len(extensions), r))
-//@   ensures[fmspc] err == nil ==> (forall k :: 0 <= k && k < len(extensions) && sgxIs(extensions, k, OidFMSPC) ==> fmspcFrom(extensions, k, len(extensions), r))
+//@   ensures[ppid-not-skipped] err == nil ==> (forall k :: 0 <= k && k < len(extensions) && sgxIs(extensions, k, OidPPID) ==> len(r.PPID) == 32)
+//@   ensures[pceid-not-skipped] err == nil ==> (forall k :: 0 <= k && k < len(extensions) && sgxIs(extensions, k, OidPCEID) ==> len(r.PCEID) == 4)
+//@   ensures[fmspc-not-skipped] err == nil ==> (forall k :: 0 <= k && k < len(extensions) && sgxIs(extensions, k, OidFMSPC) ==> len(r.FMSPC) == 12)
 //@   ensures[tcb-not-skipped] err == nil ==> (forall k :: 0 <= k && k < len(extensions) && sgxIs(extensions, k, OidTCB) ==> len(r.TCB.CPUSvnComponents) == 16)
 //@   loop 0: invariant localof("*PckExtensions") != nil && fresh(localof("*PckExtensions"))
-//@   loop 0: invariant forall k :: 0 <= k && k < loopindex && sgxIs(extensions, k, OidPPID) ==> ppidFrom(extensions, k, loopindex, localof("*PckExtensions"))
-//@   loop 0: invariant forall k :: 0 <= k && k < loopindex && sgxIs(extensions, k, OidPCEID) ==> pceidFrom(extensions, k, loopindex, localof("*PckExtensions"))
-//@   loop 0: invariant forall k :: 0 <= k && k < loopindex && sgxIs(extensions, k, OidFMSPC) ==> fmspcFrom(extensions, k, loopindex, localof("*PckExtensions"))
+//@   loop 0: invariant forall k :: 0 <= k && k < loopindex && sgxIs(extensions, k, OidPPID) ==> len(localof("*PckExtensions").PPID) == 32
+//@   loop 0: invariant forall k :: 0 <= k && k < loopindex && sgxIs(extensions, k, OidPCEID) ==> len(localof("*PckExtensions").PCEID) == 4
+//@   loop 0: invariant forall k :: 0 <= k && k < loopindex && sgxIs(extensions, k, OidFMSPC) ==> len(localof("*PckExtensions").FMSPC) == 12
 //@   loop 0: invariant forall k :: 0 <= k && k < loopindex && sgxIs(extensions, k, OidTCB) ==> len(localof("*PckExtensions").TCB.CPUSvnComponents) == 16
 
 //@ func PckCertificateExtensions(cert) (r, err)
